@@ -203,3 +203,40 @@ macro_rules! c14_custom_args {
 c14_custom_args!(c14_custom_args_both, false, false);
 c14_custom_args!(c14_custom_args_first_missing, true, false);
 c14_custom_args!(c14_custom_args_second_missing, false, true);
+
+// ---------------------------------------------------------------------------
+// C10: function results take part in comparisons as ordinary values:
+// `length(@) <op> c` and `count(@) == c`, `value(@) == c` through Comparison::process.
+use crate::parser::model::{Comparison, FnArg, TestFunction};
+use crate::query::Query;
+macro_rules! c10_fn_in_cmp {
+    ($name:ident, |$sc:ident, $arg:ident, $t2:ident| $node:expr, $tf:expr, |$c:ident| $spec:expr) => {
+        proof!($name, 6, {
+            let root = Mini::Null;
+            let mut $sc = Scratch::new();
+            let node: Mini = $node;
+            let $c: i64 = any_ijson();
+            let mut t = Test::RelQuery(Vec::new());
+            // the function argument `@` as a mirror in typed storage
+            let mut $arg = mfn_test(&mut t);
+            let mut $t2 = Test::RelQuery(Vec::new());
+            let tf: TestFunction = $tf;
+            let mut cmp = MCmp { tag: OP_EQ, a: mc_fn(tf), b: mc_lit(Literal::Int($c)) };
+            let r = as_cmp(&cmp).process(State::data(&root, Data::Ref(Pointer::new(&node, String::from("p")))));
+            let got = matches!(r.data, Data::Value(Mini::Bool(true)));
+            assert!(got == $spec, "a function result must compare like the value it denotes");
+            kani::cover!(got, "comparison true");
+            kani::cover!(!got, "comparison false");
+            forget(r);
+            forget(cmp);
+            forget($sc);
+        });
+    };
+}
+fn fnarg_box(m: &mut MFnTest) -> Box<FnArg> {
+    unsafe { Box::from_raw(m as *mut MFnTest as *mut FnArg) }
+}
+c10_fn_in_cmp!(c10_length_in_cmp, |sc, arg, t2| { sc.elems[0] = Mini::Null; sc.elems[1] = Mini::Null; let n: usize = kani::any(); kani::assume(n <= 2); sc.o.len = n; sc.arr(n) },
+    TestFunction::Length(fnarg_box(&mut arg)), |c| c == sc.o.len as i64);
+c10_fn_in_cmp!(c10_count_in_cmp, |sc, arg, t2| Mini::Null, TestFunction::Count(FnArg::Test(tbox(&mut t2))), |c| c == 1);
+c10_fn_in_cmp!(c10_value_in_cmp, |sc, arg, t2| Mini::Int(7), TestFunction::Value(FnArg::Test(tbox(&mut t2))), |c| c == 7);
